@@ -88,7 +88,7 @@ class TriggerHandler:
         """
         self.__old_thread_trace = None
         self.__old_sys_trace = None
-        self.__start_thread = None
+        self.__start_thread = threading.local()
         self.__hooks_installed = False
         self.__shutdown = False
         self._push_service = push_service
@@ -104,7 +104,10 @@ class TriggerHandler:
         # so we allow the settrace to be disabled, so we can at least debug around it
         if self._config.NO_TRACE:
             return
-        self.__start_thread = threading.get_ident()
+        # marks the thread that starts us. Not by its ident: the ident of a thread that has ended is given to the next
+        # thread created, which would be taken for the starting thread (and given its trace function)
+        self.__start_thread = threading.local()
+        self.__start_thread.mine = True
         # remembered here: this is looked at on every trace event after shutdown, where we must not go through the
         # config (an unknown key is logged, and we may be called from inside the logging module)
         self.__hooks_installed = True
@@ -183,7 +186,7 @@ class TriggerHandler:
         """
         try:
             if self.__hooks_installed and sys.gettrace() == self.trace_call:
-                mine = threading.get_ident() == self.__start_thread
+                mine = getattr(self.__start_thread, 'mine', False)
                 sys.settrace(self.__old_sys_trace if mine else self.__old_thread_trace)
         except BaseException:
             pass
@@ -307,7 +310,7 @@ class TriggerHandler:
         if self._config.NO_TRACE:
             # we never installed our hooks, so there is nothing of ours to remove
             return
-        if threading.get_ident() == self.__start_thread:
+        if getattr(self.__start_thread, 'mine', False):
             sys.settrace(self.__old_sys_trace)
         # else: the function of the calling thread is not ours to replace; the starting thread removes us itself, at
         # its next trace event (see __leave_thread)
